@@ -3,7 +3,7 @@ from __future__ import annotations
 
 import json
 
-from spverif.core.util import attempt, exc_sig, rand_bytes, rand_uint, documented_errors
+from spverif.core.util import attempt, exc_sig, rand_bytes, rand_uint, documented_errors, hist_len
 from spverif.ref import pus as P
 from spverif.ref import ccsds as H
 
@@ -278,7 +278,7 @@ def k_rid_history(ctx, seed):
     v = r.getrandbits(32)
     obj = mk_rid(v, r.choice(ROUTES))
     trail = []
-    for step in range(r.randrange(2, 8)):
+    for step in range(hist_len(r, 2, 8)):
         op = r.choice(("as_u32", "hash", "eq", "dict", "pack", "set_psc", "set_packet_id", "set_version", "set_psc.seq_count", "set_psc.seq_flags", "set_packet_id.apid",
                        "set_packet_id.ptype", "set_packet_id.sec_header_flag"))
         trail.append(op)
